@@ -590,18 +590,19 @@ class ConformationContainer:
                     continue
                 self.copy_atom(atom)
 
-    def find_group(self, group):
+    def find_group(self, group, exclude=()):
         """Find a group in the container.
 
         Args:
             group:  group to find
+            exclude:  ids of groups that must not be returned (already matched)
         Returns:
             False (if group not found) or group
         """
         for group_ in self.groups:
             if (group_.atom.residue_label == group.atom.residue_label
                     and group_.atom.icode == group.atom.icode):
-                if group_.type == group.type:
+                if group_.type == group.type and id(group_) not in exclude:
                     return group_
         return False
 
